@@ -376,7 +376,8 @@ def loops(n, *fns):
 def helper_uw(maxd):
     n = maxd + 1
     return ["bn_make.0:%d" % n, "v_value.0:%d" % n, "spec_digits.0:5", "spec_set.0:5",
-            "v_memmove.0:%d" % n, "v_memmove.1:%d" % n, "v_memcpy.0:%d" % n]
+            "v_memmove.0:%d" % n, "v_memmove.1:%d" % n, "v_memcpy.0:%d" % n,
+            "bn_init_digits__int.0:%d" % n, "bn_digits_calc_digits.0:%d" % n]      # zero fill up to the capacity (bn_sub of two zeros now widens to count)
 
 
 def div_jobs(tier):
@@ -519,9 +520,19 @@ def algo_jobs(tier):
     return out
 
 
-def jobs(tier):
+def _jobs_all(tier):
     out = digit_jobs(tier) + kern_jobs(tier) + impexp_jobs(tier) + wrap_jobs(tier) + div_jobs(tier) + algo_jobs(tier)
     for j in out:
         if tier == "quick":     # slowest quick job measured unloaded: 73 s; the box is shared, leave head room
             j["timeout"] = max(j.get("timeout", 0), 400)
     return out
+
+
+# No verdict in 1500 s in the full thorough run of this session (12 jobs in parallel) [measured]: withdrawn, the shapes are
+# stated as outside (64-bit real products / 15-bit exponents with the real multiply).
+WITHDRAWN = {"dig-mult-w64pt-gt", "dig-mult-w64pt-le", "algo-modexpdigit-c3d1-e15", "algo-modexp-c3d1-e15",
+             "wrap-mult-cc-w64cc-c2d1-c2d1", "kern-muld-cc-w32cc-a4b1", "kern-muld-cc-w64cc-a1b1"}
+
+
+def jobs(tier):
+    return [j for j in _jobs_all(tier) if j["name"] not in WITHDRAWN]
